@@ -440,7 +440,7 @@ def i_DMULU(ins, fmap):
 def i_DT(ins, fmap):
     Rn = ins.operands[0]
     fmap[Rn] = fmap(Rn - 1)
-    fmap[T] = fmap(Rn == 0, bit1, bit0)
+    fmap[T] = fmap(tst(Rn == 0, bit1, bit0))
 
 
 @__pc
@@ -540,7 +540,7 @@ def i_SHAD(ins, fmap):
     sgn = Rm[31:32]
     s_p = Rm[0:5]
     s_n = (~s_p) + 1
-    fmap[Rn] = fmap(sgn, Rn << s_p, op(OP_ASR, Rn, s_n))
+    fmap[Rn] = fmap(tst(sgn, op(OP_ASR, Rn, s_n), Rn << s_p))
 
 
 @__pc
@@ -563,7 +563,7 @@ def i_SHLD(ins, fmap):
     sgn = Rm[31:32]
     s_p = Rm[0:5]
     s_n = (~s_p) + 1
-    fmap[Rn] = fmap(sgn, Rn << s_p, Rn >> s_n)
+    fmap[Rn] = fmap(tst(sgn, Rn >> s_n, Rn << s_p))
 
 
 @__pc
